@@ -21,7 +21,7 @@ use mithril_common::crypto_helper::{ColdKeyGenerator, KesEvolutions, KesPeriod, 
 use mithril_common::entities::{ChainPoint, Epoch, ProtocolParameters, Signer, SignerWithStake, StakeDistribution};
 use mithril_common::protocol::SignerBuilder;
 use mithril_persistence::sqlite::{ConnectionBuilder, ConnectionOptions};
-use mithril_stm::{Initializer, Parameters, RegisterError, RegistrationEntry, VerificationKeyProofOfPossessionForConcatenation};
+use mithril_stm::{Initializer, Parameters, RegisterError, VerificationKeyProofOfPossessionForConcatenation};
 use rand_chacha::ChaCha20Rng;
 use rand_core::SeedableRng;
 
@@ -97,6 +97,29 @@ fn reg_class(e: &anyhow::Error) -> String {
 
 enum Op { Open(u64, Vec<(String, u64)>), Close, Chain(Option<u64>), Reg(u64, Attempt) }
 
+/// the proof of possession judged with blst directly, one half at a time (NOT through `RegistrationEntry::new`, which is
+/// the code under test): `k1` is a BLS signature of "PoP" under the key, and `e(k2, g2) = e(g1, vk)`.
+/// bytes = vk (96, G2 compressed) ‖ k1 (48, G1 compressed) ‖ k2 (48, G1 compressed)
+fn pop_halves(bytes: &[u8]) -> (bool, bool) {
+    use blst::min_sig::{PublicKey, Signature};
+    use blst::*;
+    if bytes.len() != 192 { return (false, false); }
+    let (vk, k1, k2) = (&bytes[..96], &bytes[96..144], &bytes[144..]);
+    let pk = match PublicKey::from_bytes(vk) { Ok(p) => p, Err(_) => return (false, false) };
+    let half1 = match Signature::from_bytes(k1) { Ok(sg) => sg.verify(false, b"PoP", &[], &[], &pk, false) == BLST_ERROR::BLST_SUCCESS, Err(_) => false };
+    let half2 = unsafe {
+        let mut k2a = blst_p1_affine::default();
+        let mut vka = blst_p2_affine::default();
+        if blst_p1_uncompress(&mut k2a, k2.as_ptr()) != BLST_ERROR::BLST_SUCCESS || blst_p2_uncompress(&mut vka, vk.as_ptr()) != BLST_ERROR::BLST_SUCCESS { false } else {
+            let (mut l, mut r) = (blst_fp12::default(), blst_fp12::default());
+            blst_miller_loop(&mut l, blst_p2_affine_generator(), &k2a);
+            blst_miller_loop(&mut r, &vka, blst_p1_affine_generator());
+            blst_fp12_finalverify(&l, &r)
+        }
+    };
+    (half1, half2)
+}
+
 fn main() {
     hagg::silence_stdout();
     let args = Args::parse();
@@ -147,6 +170,11 @@ fn main() {
         { let mut x = honest(&a, t); x.tag = "opcert-missing-claimed-other"; x.opcert = None; x.claimed = b.pool_id.clone(); pool.push(x); }
         { let mut x = honest(&a, t); x.tag = "opcert-missing-claimed-empty"; x.opcert = None; x.claimed = String::new(); pool.push(x); }
         { let mut forged = a.vkpop; forged.pop = b.vkpop.pop; let mut x = honest(&a, t); x.tag = "pop-swapped-kes-resigned"; x.vkpop = forged; x.sig = sig_of(&a, &forged, t); pool.push(x); }
+        for (tag, lo, hi) in [("pop-k1-of-other-kes-resigned", 96usize, 144usize), ("pop-k2-of-other-kes-resigned", 144, 192)] {
+            let mut fb = a.vkpop.to_bytes().to_vec();
+            fb[lo..hi].copy_from_slice(&b.vkpop.to_bytes()[lo..hi]);
+            if let Ok(forged) = VerificationKeyProofOfPossessionForConcatenation::from_bytes(&fb) { let mut x = honest(&a, t); x.tag = tag; x.vkpop = forged; x.sig = sig_of(&a, &forged, t); pool.push(x); }
+        }
         {
             let mut v = serde_json::to_value(&a.opcert).unwrap();
             v[0][2] = serde_json::json!(v[0][2].as_u64().unwrap() + 1);
@@ -216,7 +244,7 @@ fn main() {
                     let msg = at.vkpop.to_bytes();
                     let opcert_ok = at.opcert.as_ref().map(|o| o.validate().is_ok()).unwrap_or(false);
                     let kes_ok: Vec<u32> = match (&at.opcert, &at.sig) { (Some(o), Some(s)) => (0u32..=66).filter(|t| s.verify(*t, &o.get_kes_verification_key(), &msg).is_ok()).collect(), _ => vec![] };
-                    let pop_ok = RegistrationEntry::new(at.vkpop, 1).is_ok();
+                    let pop_ok = { let (h1, h2) = pop_halves(&at.vkpop.to_bytes()); h1 && h2 };
                     let pool_id = at.opcert.as_ref().and_then(|o| o.compute_protocol_party_id().ok());
                     let claimed = if at.claimed.is_empty() { "none".to_string() } else { id(format!("pid:{}", at.claimed)).to_string() };
                     op_lines.push(format!("(reg,{},{},{},{},{},{},{},{},{},{},{})", ep, claimed, at.opcert.is_some() as u8,
@@ -262,7 +290,7 @@ fn main() {
                 let pool = oc.compute_protocol_party_id().ok();
                 if pool.as_ref() != Some(&s.party_id) { why.push("party id is not the pool id derived from the cold key".into()); }
                 match sd.iter().find(|(p, _)| *p == s.party_id) { None => why.push("pool not in the stake distribution of the round".into()), Some((_, st)) => if *st != s.stake { why.push("recorded stake is not the distribution's value".into()); } }
-                if RegistrationEntry::new(vkp, 1).is_err() { why.push("proof of possession invalid".into()); }
+                if { let (h1, h2) = pop_halves(&vkp.to_bytes()); !(h1 && h2) } { why.push("proof of possession invalid".into()); }
                 let kes_clause = match (&s.verification_key_signature_for_concatenation, s.kes_evolutions) {
                     (Some(sig), Some(e)) => { let e = *e; (0u32..=63).any(|t| (t as u64) + 1 >= e && (t as u64) <= e.saturating_add(1) && sig.verify(t, &oc.get_kes_verification_key(), &vkp.to_bytes()).is_ok()) }
                     _ => false,
